@@ -3,6 +3,7 @@ package props
 import (
 	"fmt"
 	"os"
+	"time"
 
 	badger "github.com/dgraph-io/badger/v4"
 
@@ -17,9 +18,10 @@ func genExpand(tok string, n int) []byte { return gen.Expand(tok, n) }
 func C06(c *core.Ctx) {
 	c.Rule("histories whose value sizes form a ladder around every threshold in play (0,1,threshold-1/=/+1, block size +-1, 4 KiB, 20 KiB, 64 KiB) with all " +
 		"meta/expiry/discard combinations, static thresholds 32/64/1024 and VLogPercentile 0.5/0.99 (threshold moves while entries are in flight); values are " +
-		"read through Get->Value, Get->ValueCopy, iterator with prefetch and without, during the run, after it, and after close/re-open; full byte comparison " +
+		"6% of the writers keep their writes pending while ~80 other commits are acknowledged; read through Get->Value, Get->ValueCopy, iterator with prefetch and without, during the run, after it, and after close/re-open; full byte comparison " +
 		"by digest against the PRF-expanded token; plus a large-value family (values from 1 MiB-1 to 5 MiB next to small ones, ValueLogFileSize 8-16 MiB) read back " +
-		"after the run, after clean close/re-open (twice) and after a value-log GC pass; distinct = (option variant, size, read path) triples checked")
+		"after the run, after clean close/re-open (twice) and after a value-log GC pass; and a pinned-threshold family (VLogPercentile 0.5/0.9/0.99: a transaction or write " +
+		"batch sets a size ladder, hundreds of other commits move the threshold up or down, then it commits; all values and metas read back after commit and after re-open); distinct = (option variant, size, read path) triples checked")
 	work := c.WorkDir()
 	defer os.RemoveAll(work)
 	idx := 0
@@ -38,6 +40,17 @@ func C06(c *core.Ctx) {
 					m.ExpireFrac = 0.3
 					m.DiscardFrac = 0.2
 					m.DeleteFrac = 0.05
+					// some transactions hold their pending writes while ~80 other commits go by: with
+					// VLogPercentile the threshold their entries were classified under moves meanwhile
+					m.LateCommitFrac = 0.06
+					m.LongRWCommits = 80
+					m.BlindFrac = 0.8
+					if idx%2 == 0 {
+						// drifting size distribution: small values first, then mostly large ones, so that
+						// a percentile threshold keeps rising while late committers hold mid-sized values
+						m.ValSizes = []int{0, 1, 5, 31, 32, 33, 63, 64, 65, 100, 200, 300}
+						m.ValSizesLate = []int{65, 300, 600, 1000, 1023, 1024, 1025, 4095, 4096, 4097, 20000, 65536}
+					}
 					m.ValSizes = []int{0, 1, 5, 31, 32, 33, 63, 64, 65, 1000, 1023, 1024, 1025, 4095, 4096, 4097, 20000, 65536}
 					if v == 4 {
 						m.ValSizes = []int{0, 1, 31, 32, 33, 1024, 20000}
@@ -96,6 +109,9 @@ func C06(c *core.Ctx) {
 	}
 	for i := 0; i < c.Pick(2, 8); i++ {
 		c06Large(c, work, i)
+	}
+	for i := 0; i < c.Pick(4, 24); i++ {
+		c06PinnedThreshold(c, work, i)
 	}
 	if c.Counter("threshold.dynamic_changes_observed") == 0 {
 		c.Inconclusive("the dynamic value threshold never moved")
@@ -206,4 +222,133 @@ func commonPrefix(a, b []byte) int {
 		n++
 	}
 	return n
+}
+
+// c06PinnedThreshold: with VLogPercentile the value threshold moves while a transaction (or a write
+// batch) holds pending writes that were classified under the old threshold; once it commits every
+// value must still read back byte for byte, whichever way the threshold moved in between.
+func c06PinnedThreshold(c *core.Ctx, work string, idx int) {
+	r := c.Rand(fmt.Sprintf("c06-pinned-%d", idx))
+	dir := fmt.Sprintf("%s/pinned%d", work, idx)
+	_ = os.MkdirAll(dir, 0o755)
+	defer os.RemoveAll(dir)
+	ov := hist.SmallOptions(dir, 0, r)
+	ov.Opt.ValueThreshold = 32
+	ov.Opt.VLogPercentile = []float64{0.5, 0.99, 0.9}[idx%3]
+	ov.Opt.MemTableSize = 1 << 20
+	ov.Opt.ValueLogFileSize = 8 << 20
+	rising := idx%4 != 3
+	db, err := badger.Open(ov.Opt)
+	if err != nil {
+		c.Inconclusive("open: " + err.Error())
+		return
+	}
+	defer func() { _ = db.Close() }()
+	filler := func(n, size int, tag string) {
+		for i := 0; i < n; i++ {
+			_ = db.Update(func(txn *badger.Txn) error {
+				return txn.Set([]byte(fmt.Sprintf("fill-%s-%04d", tag, i)), gen.Expand(fmt.Sprintf("f%s%d", tag, i), size))
+			})
+		}
+	}
+	if !rising {
+		filler(200, 6000, "pre") // start with a high threshold, let it fall
+	}
+	t0 := db.VerifValueThreshold()
+	sizes := []int{0, 1, 31, 32, 33, 64, 100, 300, 600, 1000, 1500, 3000, 5000, 7000}
+	want := map[string][]byte{}
+	metas := map[string]byte{}
+	useBatch := idx%2 == 1
+	var txn *badger.Txn
+	var wb *badger.WriteBatch
+	if useBatch {
+		wb = db.NewWriteBatch()
+	} else {
+		txn = db.NewTransaction(true)
+	}
+	for i, sz := range sizes {
+		k := fmt.Sprintf("pinned-%05d", sz)
+		v := gen.Expand(fmt.Sprintf("P%d.%d", idx, i), sz)
+		e := badger.NewEntry([]byte(k), v).WithMeta(byte(1 + i))
+		var err error
+		if useBatch {
+			err = wb.SetEntry(e)
+		} else {
+			err = txn.SetEntry(e)
+		}
+		if err != nil {
+			c.Violation("C06|pinned|set-error", err.Error(), ov.Name)
+			return
+		}
+		want[k], metas[k] = v, byte(1+i)
+	}
+	if rising {
+		filler(300, 8000, "mid")
+	} else {
+		filler(600, 10, "mid")
+	}
+	deadline := time.Now().Add(3 * time.Second)
+	for db.VerifValueThreshold() == t0 && time.Now().Before(deadline) {
+		time.Sleep(5 * time.Millisecond)
+	}
+	t1 := db.VerifValueThreshold()
+	if useBatch {
+		err = wb.Flush()
+	} else {
+		err = txn.Commit()
+	}
+	if err != nil {
+		c.Violation("C06|pinned|commit-error", fmt.Sprintf("commit of writes that were all accepted failed after the value threshold moved from %d to %d: %v", t0, t1, err), ov.Name)
+		return
+	}
+	c.Eval(1)
+	if t1 != t0 {
+		c.Count("pinned.threshold_moved_while_writes_pending", 1)
+		c.Distinct(fmt.Sprintf("pinned|percentile=%v|rising=%v|batch=%v", ov.Opt.VLogPercentile, t1 > t0, useBatch))
+	}
+	info := map[string]any{"options": ov.Name, "percentile": ov.Opt.VLogPercentile, "threshold_at_set": t0, "threshold_at_commit": t1, "write_batch": useBatch}
+	check := func(stage string) {
+		_ = db.View(func(rt *badger.Txn) error {
+			for k, v := range want {
+				it, err := rt.Get([]byte(k))
+				if err != nil {
+					c.Violation("C06|pinned|"+stage+"|get-error", fmt.Sprintf("key %s (%d bytes): %v", k, len(v), err), info)
+					continue
+				}
+				got, err := it.ValueCopy(nil)
+				c.Count("pinned.values_checked", 1)
+				if err != nil || string(got) != string(v) || it.UserMeta() != metas[k] {
+					c.Violation("C06|pinned|"+stage+"|value-differs", fmt.Sprintf("key %s: wrote %d bytes meta %d, read %d bytes meta %d err=%v (threshold %d at Set, %d at Commit)", k, len(v), metas[k], len(got), it.UserMeta(), err, t0, t1), info)
+				}
+			}
+			io := badger.DefaultIteratorOptions
+			io.Prefix = []byte("pinned-")
+			itr := rt.NewIterator(io)
+			defer itr.Close()
+			n := 0
+			for itr.Rewind(); itr.Valid(); itr.Next() {
+				n++
+				k := string(itr.Item().Key())
+				got, err := itr.Item().ValueCopy(nil)
+				if err != nil || string(got) != string(want[k]) {
+					c.Violation("C06|pinned|"+stage+"|iterator-value-differs", fmt.Sprintf("key %s: wrote %d bytes, iterator returned %d bytes err=%v", k, len(want[k]), len(got), err), info)
+				}
+			}
+			if n != len(want) {
+				c.Violation("C06|pinned|"+stage+"|iterator-count", fmt.Sprintf("iterator returned %d of %d keys", n, len(want)), info)
+			}
+			return nil
+		})
+	}
+	check("after-commit")
+	if err := db.Close(); err != nil {
+		c.Violation("C06|pinned|close", err.Error(), info)
+		return
+	}
+	if db, err = badger.Open(ov.Opt); err != nil {
+		c.Violation("C06|pinned|reopen", err.Error(), info)
+		db, _ = badger.Open(ov.Opt)
+		return
+	}
+	check("after-reopen")
 }
